@@ -31,7 +31,7 @@ Print Assumptions C15_same_object.
 
 (* require('X') and require('node:X') are the identical object for a core module X that is not overridden *)
 Theorem C15_node_prefix_alias : forall name,
-  let nr := {| n_registry := []; n_global := []; n_core := [name]; n_loader_reqs := [] |} in
+  let nr := {| n_registry := []; n_global := []; n_core := [name]; n_loader_reqs := []; n_loader_throws := [] |} in
   has_prefix node_prefix name = false ->
   forall st, cache_get (native_cache st) name = None ->
   let st1 := fst (load_native nr st name) in
@@ -64,7 +64,7 @@ Print Assumptions C15_source_tie.
 
 Example C15_nonvacuous :
   let util := [117;116;105;108] in
-  let nr := {| n_registry := [util]; n_global := []; n_core := [util]; n_loader_reqs := [] |} in
+  let nr := {| n_registry := [util]; n_global := []; n_core := [util]; n_loader_reqs := []; n_loader_throws := [] |} in
   let fs := [(util ++ [46;106;115], FJs [IBump])] in                      (* "util.js" next to scripts with relative names *)
   let dot := parse [46] in
   let st := run_tops fs nr 5 init_state [(dot, [46;47] ++ util); (dot, node_prefix ++ util); (dot, util)] in
@@ -72,7 +72,7 @@ Example C15_nonvacuous :
   option_map (native_owner st) (cache_get (native_cache st) util) = Some (Some (util, NRegistry)) /\
   option_map (native_owner st) (cache_get (native_cache st) (node_prefix ++ util)) = Some (Some (util, NCore)).
 Proof.
-  cbv zeta. assert (W : wf_natives {| n_registry := [[117;116;105;108]]; n_global := []; n_core := [[117;116;105;108]]; n_loader_reqs := [] |}).
+  cbv zeta. assert (W : wf_natives {| n_registry := [[117;116;105;108]]; n_global := []; n_core := [[117;116;105;108]]; n_loader_reqs := []; n_loader_throws := [] |}).
   { split.
     - intros n [H|H]; cbn in H; [|discriminate]. rewrite orb_false_r in H. apply zs_eqb_eq in H. subst. reflexivity.
     - intros c H _. cbn in H. rewrite orb_false_r in H. apply zs_eqb_eq in H. subst. reflexivity. }
